@@ -478,3 +478,81 @@ pub(crate) fn table_entries(
     }
     entries
 }
+
+/// A decoded write-ahead-log record: starting sequence number and `(key, Some(value) | None)` ops.
+pub type BatchDump = (u64, Vec<(Vec<u8>, Option<Vec<u8>>)>);
+
+/// Decode a write-ahead-log record (`Batch::try_from`).
+pub fn batch_decode(record: &[u8]) -> Result<BatchDump, String> {
+    use std::convert::TryFrom;
+    let batch = crate::Batch::try_from(record).map_err(|e| e.to_string())?;
+    let start = batch.get_starting_seq_number().unwrap_or(0);
+    let ops = batch
+        .iter()
+        .map(|element| {
+            (
+                element.get_key().to_vec(),
+                match element.get_operation() {
+                    crate::Operation::Put => Some(element.get_value().cloned().unwrap_or_default()),
+                    crate::Operation::Delete => None,
+                },
+            )
+        })
+        .collect();
+    Ok((start, ops))
+}
+
+/// A decoded manifest record.
+#[derive(Clone, Debug, Default, PartialEq, Eq)]
+pub struct EditDump {
+    pub wal_file_number: Option<u64>,
+    pub prev_wal_file_number: Option<u64>,
+    pub prev_sequence_number: Option<u64>,
+    pub curr_file_number: Option<u64>,
+    /// `(level, file)`
+    pub new_files: Vec<(usize, FileDump)>,
+    /// `(level, file number)`
+    pub deleted_files: Vec<(usize, u64)>,
+    pub compaction_pointers: Vec<(usize, IKey)>,
+}
+
+/// Decode a manifest record (`VersionChangeManifest::try_from`).
+pub fn edit_decode(record: &[u8]) -> Result<EditDump, String> {
+    use std::convert::TryFrom;
+    let manifest = crate::versioning::VersionChangeManifest::try_from(record)
+        .map_err(|e| e.to_string())?;
+    let mut deleted_files: Vec<(usize, u64)> = manifest
+        .deleted_files
+        .iter()
+        .map(|deleted| (deleted.level, deleted.file_number))
+        .collect();
+    deleted_files.sort_unstable();
+    Ok(EditDump {
+        wal_file_number: manifest.wal_file_number,
+        prev_wal_file_number: manifest.prev_wal_file_number,
+        prev_sequence_number: manifest.prev_sequence_number,
+        curr_file_number: manifest.curr_file_number,
+        new_files: manifest
+            .new_files
+            .iter()
+            .map(|(level, file)| {
+                (
+                    *level,
+                    FileDump {
+                        number: file.file_number(),
+                        size: file.get_file_size(),
+                        smallest: ikey_tuple(file.smallest_key()),
+                        largest: ikey_tuple(file.largest_key()),
+                        allowed_seeks: file.allowed_seeks(),
+                    },
+                )
+            })
+            .collect(),
+        deleted_files,
+        compaction_pointers: manifest
+            .compaction_pointers
+            .iter()
+            .map(|(level, key)| (*level, ikey_tuple(key)))
+            .collect(),
+    })
+}
